@@ -160,6 +160,7 @@ def judge(spec: dict, out: _gen.GenOutcome, log: core.EventLog, stats: dict):
 
 def run_one(spec: dict) -> dict:
     log = core.EventLog()
+    _gen.run_history_prefix(spec, log)
     out = _gen.execute(spec, log, extra=_after)
     extra = {"draws": out.sim.draws if out.sim is not None else None}
     stats = dict(out.sim.stats()) if out.sim is not None else {}
@@ -181,7 +182,7 @@ def run_one(spec: dict) -> dict:
 
 def run(spec: dict, ctx) -> dict:
     if "batch" in spec:
-        return {"status": "batch", "results": [run_one(s) for s in spec["batch"]]}
+        return {"status": "batch", "results": _gen.run_batch(spec["batch"], run_one)}
     return run_one(spec)
 
 
